@@ -47,7 +47,20 @@ def pure(tier, rng):
 def gen(tier, rng):
     n, ln = (400, 40) if tier == 'quick' else (8000, 60)
     H = memfs_gen.histories(rng, n, ln, 'perm') + memfs_gen.histories(rng, n // 2, ln, 'perm', names=['a', 'b'])
-    return H, dict(kind='permission-heavy random histories: chmod / chmod_b (octal dirs/files, symbolic, recursive or not, follow or not) / chown / chown_b / mkdir_m / mkfile_m + mode/owner queries', histories=len(H), exhaustive=False)
+    # deterministic battery: chmod_b / chown_b addressed at a link (to a file, to a directory with content) and at
+    # plain targets, every follow / recursive combination, octal values incl. 0o777 (= a link's own permission bits)
+    hx = vlib.hx
+    base = ['mkdir_m ' + hx('/d') + ' 700', 'mkfile_m ' + hx('/d/g') + ' 640', 'mkfile_m ' + hx('/f') + ' 600',
+            'symlink ' + hx('/lf') + ' ' + hx('/f'), 'symlink ' + hx('/ld') + ' ' + hx('/d')]
+    for tgt in ('/lf', '/ld', '/f', '/d'):
+        for (dm, fm) in (('777', '777'), ('0', '777'), ('777', '0'), ('755', '644'), ('500', '400')):
+            for rec in '01':
+                for fo in '01':
+                    H.append(['new eHOME=2f68'] + base + [f'chmod_b {hx(tgt)} {dm} {fm} {rec} {fo} x'] + [f'mode {hx(q)}' for q in ('/f', '/d', '/d/g', '/lf', '/ld')])
+        for rec in '01':
+            for fo in '01':
+                H.append(['new eHOME=2f68'] + base + [f'chown_b {hx(tgt)} 5 7 {rec} {fo}'] + [f'owner {hx(q)}' for q in ('/f', '/d', '/d/g', '/lf', '/ld')])
+    return H, dict(kind='permission-heavy random histories + a deterministic link/target x follow x recursive x mode battery: chmod / chmod_b (octal dirs/files, symbolic, recursive or not, follow or not) / chown / chown_b / mkdir_m / mkfile_m + mode/owner queries', histories=len(H), exhaustive=False)
 
 
 def judge(req, impl, f, prev):
